@@ -157,9 +157,10 @@ func c06Run(ctx *run.Ctx, id run.CaseID) {
 		return
 	}
 	ctx.Eval(1)
-	fail := func(sub, detail string) {
-		ctx.Fail(digest, sub, "", fmt.Sprintf("%s; rect=%+v paths=%v result=%v", detail, q, paths, out), in)
+	failClass := func(sub, class, detail string) {
+		ctx.Fail(digest, sub, class, fmt.Sprintf("%s; rect=%+v paths=%v result=%v", detail, q, paths, out), in)
 	}
+	fail := func(sub, detail string) { failClass(sub, "", detail) }
 	// vertices within the rectangle
 	for _, p := range out {
 		for _, v := range p {
@@ -199,7 +200,7 @@ windings:
 		wi, _ := oracle.Winding(paths, p)
 		ctx.Count("points_compared", 1)
 		if wi != wr {
-			fail("winding", fmt.Sprintf("at %s inside the rectangle input winding %d, result winding %d", fmtPt(p), wi, wr))
+			failClass("winding", rectEnclosedClass(paths, q, wi-wr), fmt.Sprintf("at %s inside the rectangle input winding %d, result winding %d", fmtPt(p), wi, wr))
 			break
 		}
 	}
@@ -248,4 +249,64 @@ windings:
 			ctx.Sample(map[string]any{"case": id.String(), "rect": q, "paths": paths})
 		}
 	}
+}
+
+// rectEnclosedClass attributes a winding discrepancy inside the rectangle to the clipper's handling of paths that
+// go around the rectangle without touching it: such a path contributes the whole rectangle once if an even-odd
+// point-in-polygon test of the rectangle's corners says "inside" (orientation taken from the order in which the
+// path visits the outside zones), i.e. 0 for an even winding and +1 or -1 for an odd one, instead of its winding
+// number. The class is given only if at least one such path exists and the discrepancy equals the sum of
+// (winding - contribution) over those paths for some admissible choice of contributions.
+func rectEnclosedClass(paths Paths, q rectI, discrepancy int) string {
+	rectPath := Path{{X: q.L, Y: q.T}, {X: q.R, Y: q.T}, {X: q.R, Y: q.B}, {X: q.L, Y: q.B}}
+	centre := Pt{X: (q.L + q.R) / 2, Y: (q.T + q.B) / 2}
+	var ws []int
+	for _, p := range paths {
+		n := len(p)
+		if n < 3 {
+			continue
+		}
+		touches := false
+		for i := 0; i < n && !touches; i++ {
+			a, b := p[i], p[(i+1)%n]
+			if a.X >= q.L && a.X <= q.R && a.Y >= q.T && a.Y <= q.B {
+				touches = true
+			}
+			for j := 0; j < 4 && !touches; j++ {
+				if oracle.SegsIntersectExact(a, b, rectPath[j], rectPath[(j+1)%4]) {
+					touches = true
+				}
+			}
+		}
+		if touches {
+			continue
+		}
+		if w, _ := oracle.WindingPath(p, centre); w != 0 {
+			ws = append(ws, w)
+		}
+	}
+	if len(ws) == 0 || len(ws) > 12 {
+		return ""
+	}
+	// reachable sums of (w - c)
+	reach := map[int]bool{0: true}
+	for _, w := range ws {
+		next := map[int]bool{}
+		var cs []int
+		if w%2 == 0 {
+			cs = []int{0}
+		} else {
+			cs = []int{1, -1}
+		}
+		for s := range reach {
+			for _, c := range cs {
+				next[s+w-c] = true
+			}
+		}
+		reach = next
+	}
+	if discrepancy != 0 && reach[discrepancy] {
+		return "rect-enclosed-by-path-winding"
+	}
+	return ""
 }
